@@ -178,7 +178,7 @@ def structure(root):
     while stack:
         node = stack.pop()
         out.append((type(node).__name__, node.arg_key, node.index, tuple(node.comments) if node.comments else None,
-                    _tstr(node, Expr),
+                    _tstr(node, Expr, by_identity=False),
                     repr(sorted(node._meta.items(), key=repr)) if node._meta else None))
         for key, v in node.args.items():
             if isinstance(v, Expr):
@@ -211,7 +211,7 @@ def _noid(x):
     return x
 
 
-def _tstr(node, Expr):
+def _tstr(node, Expr, by_identity=True):
     """Fingerprint of a node's type annotation. exp.cast() annotates a Cast with its own `to` node (the same object), so
     for nodes that have a `to` argument the annotation is compared by identity only: its contents are a tree node (or a
     former one) that the caller may legitimately edit or re-attach elsewhere."""
@@ -219,7 +219,7 @@ def _tstr(node, Expr):
     if ty is None:
         return None
     if isinstance(ty, Expr):
-        if "to" in node.arg_types:
+        if by_identity and "to" in node.arg_types:
             return "type@%d" % id(ty)
         try:
             return ty.sql()
